@@ -221,10 +221,19 @@ class MetadataGenerator:
         list_types: List[DList] = []
         dict_types: List[DDict] = []
         other_types: List[MetaData] = []
-        for item in t.types:
-            if isinstance(item, DOptional):
-                item = item.type
-                other_types.append(Null)
+
+        def flatten(types):
+            # Optional[Union[...]] members are unwrapped and their members handled like direct ones
+            for item in types:
+                if isinstance(item, DOptional):
+                    item = item.type
+                    other_types.append(Null)
+                if isinstance(item, DUnion):
+                    yield from flatten(item.types)
+                else:
+                    yield item
+
+        for item in flatten(t.types):
             if isinstance(item, dict):
                 types_to_merge.append(item)
             elif item in self.str_types_registry or item is str:
